@@ -36,6 +36,7 @@ class Opts(object):
         self.except_as = True
         self.jump_in_handler_finally = False   # known-finding shape (C05), separate stream
         self.finally_prob = 0.5
+        self.raising_return = False   # `return o.missing`: evaluating the return value raises AttributeError (needs mutation=True)
         self.rich_finally = False  # compound statements (loops with their own break/continue, nested try) in finally bodies
         self.aug = True
         self.tuple_assign = True
@@ -137,6 +138,8 @@ class Gen(object):
             choices += ['break', 'continue']
         if depth > 0 and ((not ihf) or o.jump_in_handler_finally):
             choices += ['return']
+            if o.raising_return and o.mutation:
+                choices += ['retattr'] * 2
         if o.raise_ and depth > 0:
             choices += ['raise']
         if o.nested_def and depth < 2:
@@ -161,6 +164,9 @@ class Gen(object):
         if c == 'append':
             self.emit(ind, 'm.append(%s)' % self.texpr(defined))
             return defined, True
+        if c == 'retattr':
+            self.emit(ind, 'return o.missing%d' % self.key())
+            return defined, False
         if c == 'global':
             if r.random() < 0.5:
                 self.emit(ind, 'G = T(%d, G)' % self.key())       # read-modify-write of the global
